@@ -1221,12 +1221,12 @@ Theorem C10_grammar_go_in_domain :
 Proof. exact Proofs.C10_GOGrammarIR2.C10_grammar_go_nonvacuous. Qed.
 Print Assumptions C10_grammar_go_in_domain.
 
-(* the hypothesis of C10_grammar_go on the content key excludes real inputs, and the computable class known_C10_go_grammar does NOT
-   predict them: an algebraic enum with `tag = "kind", content = "type"` is in dom_C10, in no class of known_C10 and in no class of
-   known_C10_go_grammar, its Go struct has the field `type interface{}`, and the recogniser rejects the file (a gap of the finding
-   class C10-go-keyword-name found by the proof of C10_grammar_go) *)
+(* the hypothesis of C10_grammar_go on the content key excludes real inputs: an algebraic enum with `tag = "kind", content = "type"`
+   is in dom_C10 and in no class of known_C10, its Go struct has the field `type interface{}`, and the recogniser rejects the file.
+   Found by the proof of C10_grammar_go as a gap of the finding class C10-go-keyword-name; the computable class
+   known_C10_go_grammar has been extended by the content key since and predicts the input. *)
 Theorem C10_go_keyword_content_key_refuted :
-  exists cfg pd text, dom_C10 CGO pd = true /\ known_C10 CGO [] pd = [] /\ known_C10_go_grammar pd = [] /\
+  exists cfg pd text, dom_C10 CGO pd = true /\ known_C10 CGO [] pd = [] /\ known_C10_go_grammar pd = ["C10-go-keyword-name"%string] /\
     go_generate uc_exec cfg pd = Ok text /\ contains_sub (lit "type interface{}") text = true /\ c10_go_recognise text = None.
 Proof. exact Proofs.C10_GOGrammarIR2.go_keyword_content_key_refuted. Qed.
 Print Assumptions C10_go_keyword_content_key_refuted.
